@@ -138,6 +138,10 @@ def check(case):
         for f in ("wip", "dry", "async", "cont", "bg_placeholders"):
             if case.get(f):
                 res.label(f)
+        if case.get("cont") and case.get("dry"):
+            res.label("cont+dry")
+            if "undefined" in outs[:-1]:
+                res.label("cont+dry:undefined-step-with-followers")
         if case.get("returns") and "pass" in outs and not case.get("dry"):
             res.label("step-function-returns-a-value")
         if case.get("hookfault") and outs and not case.get("dry"):
@@ -243,10 +247,16 @@ def random_seq(draw, max_len=12):
 @st.composite
 def cont_seq(draw):
     n = draw(st.integers(1, 8))
-    outs = [draw(st.sampled_from(["pass", "pass", "fail", "raise", "convert", "skip"])) for _ in range(n)]
+    outs = [draw(st.sampled_from(["pass", "pass", "fail", "raise", "convert", "skip", "undefined"])) for _ in range(n)]
+    if "skip" in outs:
+        # (a step that skips its scenario after an earlier failure, followed by an undefined step: two sentences of the
+        # statement meet -- skipped / undefined -- left open)
+        outs = [("pass" if o == "undefined" else o) for o in outs]
+    # ... also together with --dry-run: no step function is ever called, whatever the switch says
     return {"kind": "seq", "outs": outs, "depth": draw(st.integers(0, 2)),
             "cut1": draw(st.integers(0, n)), "cut2": draw(st.integers(0, n)),
-            "as_row": draw(st.booleans()), "cont": True, "async": draw(st.booleans())}
+            "as_row": draw(st.booleans()), "cont": True, "async": draw(st.booleans()),
+            "dry": draw(st.integers(0, 3)) == 0}
 
 
 @st.composite
@@ -292,7 +302,7 @@ def required_labels(tier):
     req = ["depth:0", "depth:1", "depth:2", "row", "plain", "wip", "dry", "async", "cont", "rerun", "program",
            "bg_placeholders", "first:convert_key", "one-text-several-step-types", "step-hook-raises:before_step",
            "step-hook-raises:after_step", "step-hook-raises:passing-step-with-followers",
-           "step-function-returns-a-value", "nested-steps", "nested-steps:pending-sub-step-with-followers"]
+           "step-function-returns-a-value", "nested-steps", "nested-steps:pending-sub-step-with-followers", "cont+dry:undefined-step-with-followers"]
     for o in OUTCOMES:
         req += ["first:" + o, "middle:" + o, "last:" + o]
     return req
